@@ -70,11 +70,13 @@ pub fn run(o: &Opts) -> Report {
         }
         paths.insert(format!("{}x", p)); // sibling / extension of the name
         paths.insert(format!("{}.z", p));
-        let mut chars: Vec<char> = p.chars().collect();
-        chars.pop();
-        let shorter: String = chars.into_iter().collect();
-        if !shorter.ends_with('/') && !shorter.is_empty() {
-            paths.insert(shorter); // prefix of the name
+        // every proper prefix of the path string (names cut down to one character included)
+        let chars: Vec<char> = p.chars().collect();
+        for n in 1..chars.len() {
+            let shorter: String = chars[..n].iter().collect();
+            if !shorter.ends_with('/') {
+                paths.insert(shorter);
+            }
         }
         paths.insert(format!("{}/below", p)); // deeper, also below files
         paths.insert(format!("{}/below/more", p));
